@@ -786,3 +786,22 @@ def _reformat_all(p):
 
 for _prop in ('C01', 'C02', 'C03', 'C04', 'C05', 'C06', 'C07', 'C08', 'C09', 'C10', 'C11', 'C12', 'C13', 'C14', 'C15', 'C16', 'C17', 'C18', 'C19', 'C20'):
     silent(_prop, 'whole-package-reformat (ast round trip: no comments, new line numbers)', _reformat_all)
+fire('C20', 'fleet-rearm-only-with-items (defect D20 re-introduced)', 'C20.R8', 're-arms(self.activate_fleet)',
+     lambda p: M.chain(p, lambda q: M.delete_stmt(q, S_FLT, 'FleetStore.fleet_activation_process', M.if_testing('self.activate_fleet.triggered')),
+                       lambda q: M.insert_after(q, S_FLT, 'FleetStore.fleet_activation_process', M.stmt_calling('self.env.process'),
+                                                'if self.activate_fleet.triggered:\n    self.activate_fleet = self.env.event()')))
+fire('C20', 'continuous-put-event-rearmed-as-get', 'C20.R8', 're-arms(self.put_events_available)',
+     lambda p: M.replace_node(p, E_CC, 'ConveyorBelt.behaviour', M.assign_to('self.put_events_available'), 'self.get_events_available = self.env.event()'))
+fire('C17', 'machine-worker-blocked-mark-after-refresh (seed C17-a)', 'C17.R7', 'Machine.worker',
+     lambda p: M.chain(p, lambda q: M.delete_stmt(q, N_MAC, 'Machine.worker', M.assign_to('self.env.active_process.thread_state'), which=2),
+                       lambda q: M.insert_after(q, N_MAC, 'Machine.worker', M.stmt_calling('self.update_state_rep'), 'self.env.active_process.thread_state = "BLOCKED_STATE"', which=5)))
+fire('C17', 'splitter-worker-blocked-mark-not-refreshed', 'C17.R7', 'Splitter.worker',
+     lambda p: M.delete_stmt(p, N_SPL, 'Splitter.worker', M.stmt_calling('self.check_thread_state_and_update_splitter_state'), which=2))
+fire('C17', 'machine-behaviour-new-worker-not-counted', 'C17.R7', 'Machine.behaviour',
+     lambda p: M.delete_stmt(p, N_MAC, 'Machine.behaviour', M.stmt_calling('self.update_state_rep'), which=2))
+fire('C13', 'belt-plan-delay-without-speed (seed C12-a)', 'C13.R7', 'BeltStore._execute_interruption_plan',
+     lambda p: M.replace_node(p, S_BELT, 'BeltStore._execute_interruption_plan', M.assign_to('delay'), 'delay = delay * item_length', which=1))
+fire('C13', 'belt-new-item-delay-times-speed', 'C13.R7', 'BeltStore.handle_new_item_during_interruption',
+     lambda p: M.replace_node(p, S_BELT, 'BeltStore.handle_new_item_during_interruption', M.assign_to('delay_for_new_item'), 'delay_for_new_item = delay_for_new_item * (item_length * self.speed)', which=1))
+silent('C13', 'belt-plan-delay-factor-commuted',
+       lambda p: M.replace_node(p, S_BELT, 'BeltStore._execute_interruption_plan', M.assign_to('delay'), 'delay = (item_length / self.speed) * delay', which=1))
